@@ -207,6 +207,27 @@ theorem slice_takeI {α} (l : List α) (n : Int) (h : 0 ≤ n) : Py.slice l none
   have := slice_take l n.toNat
   rwa [Int.toNat_of_nonneg h] at this
 
+theorem slice_nat {α} (l : List α) (a b : Nat) :
+    Py.slice l (some (a : Int)) (some (b : Int)) = (l.take b).drop a := by
+  unfold Py.slice
+  simp only [clamp_nonneg]
+  have ht : List.take (min b l.length) l = List.take b l := by
+    by_cases h : b ≤ l.length
+    · rw [Nat.min_eq_left h]
+    · rw [Nat.min_eq_right (by omega), List.take_length, List.take_of_length_le (by omega)]
+  rw [ht]
+  by_cases h : a ≤ l.length
+  · rw [Nat.min_eq_left h]
+  · rw [Nat.min_eq_right (by omega)]
+    have hx : (List.take b l).length ≤ l.length := by simp only [List.length_take]; omega
+    rw [List.drop_eq_nil_of_le hx]
+    exact (List.drop_eq_nil_of_le (by omega)).symm
+
+theorem slice_midI {α} (l : List α) (a b : Int) (ha : 0 ≤ a) (hb : 0 ≤ b) :
+    Py.slice l (some a) (some b) = (l.take b.toNat).drop a.toNat := by
+  have := slice_nat l a.toNat b.toNat
+  rwa [Int.toNat_of_nonneg ha, Int.toNat_of_nonneg hb] at this
+
 /-! literal instances of the slice lemmas (Int literals, as the translator writes them) -/
 theorem sl_drop6 {α} (l : List α) : Py.slice l (some 6) none = l.drop 6 := by simpa using slice_drop l 6
 theorem sl_drop2 {α} (l : List α) : Py.slice l (some 2) none = l.drop 2 := by simpa using slice_drop l 2
@@ -404,7 +425,11 @@ theorem getLocalKey_eq (key data : Bytes) : Codec.getLocalKey key data = getLoca
      unfold Codec.getLocalKey getLocalKey
      by_cases hl : data.length ≠ 64
      · rw [if_pos hl, if_pos (by simp only [ne_eq, decide_eq_true_eq]; omega)]
-     · rw [if_neg hl, if_neg (by simp only [ne_eq, decide_eq_true_eq]; omega), sl_take32, sl_drop32]
+     · rw [if_neg hl, if_neg (by simp only [ne_eq, decide_eq_true_eq]; omega)]
+       have hlen : data.length ≤ 64 := by omega
+       -- every way of writing data[:32] / data[32:] with literal bounds (explicit 0 / 64 included)
+       simp (disch := decide) only [slice_takeI, slice_dropI, slice_midI, Int.reduceToNat, List.drop_zero,
+         List.take_of_length_le hlen]
        cases decryptCbc key (List.take 32 data) with
        | error e => rfl
        | ok dec =>
@@ -447,22 +472,6 @@ theorem packetEncode_eq (deviceId : Int) (ts command : Bytes) :
   | rfl
 
 /-! ### _Packet.decode -/
-theorem slice_nat {α} (l : List α) (a b : Nat) :
-    Py.slice l (some (a : Int)) (some (b : Int)) = (l.take b).drop a := by
-  unfold Py.slice
-  simp only [clamp_nonneg]
-  have ht : List.take (min b l.length) l = List.take b l := by
-    by_cases h : b ≤ l.length
-    · rw [Nat.min_eq_left h]
-    · rw [Nat.min_eq_right (by omega), List.take_length, List.take_of_length_le (by omega)]
-  rw [ht]
-  by_cases h : a ≤ l.length
-  · rw [Nat.min_eq_left h]
-  · rw [Nat.min_eq_right (by omega)]
-    have hx : (List.take b l).length ≤ l.length := by simp only [List.length_take]; omega
-    rw [List.drop_eq_nil_of_le hx]
-    exact (List.drop_eq_nil_of_le (by omega)).symm
-
 theorem sl_4_6 {α} (l : List α) : Py.slice l (some 4) (some 6) = (l.drop 4).take 2 := by
   have : Py.slice l (some 4) (some 6) = (l.take 6).drop 4 := by simpa using slice_nat l 4 6
   rw [this, List.drop_take]
